@@ -7,6 +7,7 @@
 mod engine;
 mod props;
 mod render;
+mod seqmc;
 mod util;
 
 use engine::*;
@@ -24,6 +25,8 @@ struct PropDef {
     /// the enumeration is finite and completely covered when no cap is hit
     exhaustive: bool,
     wall_cap_s: (u64, u64),
+    /// explicit-state search run inside the supervisor process (threads) instead of sharded workers
+    bfs: Option<fn(Tier, &mut Totals)>,
 }
 
 macro_rules! prop {
@@ -38,6 +41,29 @@ macro_rules! prop {
             assumptions: props::$m::ASSUMPTIONS,
             exhaustive: props::$m::EXHAUSTIVE,
             wall_cap_s: props::$m::WALL_CAP_S,
+            bfs: None,
+        }
+    };
+}
+
+fn no_worker(_w: &mut Worker) {}
+fn no_crash_sig(_c: &Value, kind: &str) -> String {
+    kind.to_string()
+}
+
+macro_rules! prop_bfs {
+    ($id:expr, $m:ident) => {
+        PropDef {
+            id: $id,
+            worker: no_worker,
+            replay: props::$m::replay,
+            crash_sig: no_crash_sig,
+            bounds: props::$m::bounds,
+            rule: props::$m::RULE,
+            assumptions: props::$m::ASSUMPTIONS,
+            exhaustive: props::$m::EXHAUSTIVE,
+            wall_cap_s: props::$m::WALL_CAP_S,
+            bfs: Some(props::$m::run),
         }
     };
 }
@@ -48,6 +74,8 @@ fn registry() -> Vec<PropDef> {
         prop!("C02", c02),
         prop!("C06", c06),
         prop!("C08", c08),
+        prop_bfs!("C11", c11),
+        prop_bfs!("C12", c12),
         prop!("C16", c16),
         prop!("C17", c17),
     ]
@@ -108,7 +136,13 @@ fn main() {
                 wall_cap: Duration::from_secs(cap),
                 extra: vec![],
             };
-            supervise(&opts, p.crash_sig, &mut totals);
+            match p.bfs {
+                Some(f) => {
+                    install_quiet_panic_hook();
+                    f(tier, &mut totals)
+                }
+                None => supervise(&opts, p.crash_sig, &mut totals),
+            }
             let spec = EvidenceSpec {
                 prop: p.id.to_string(),
                 tier,
@@ -135,13 +169,25 @@ fn main() {
             let a = (p.replay)(&case);
             let b = (p.replay)(&case);
             println!("{}", json!({"first": format!("{:?}", a), "second": format!("{:?}", b)}));
-            if format!("{:?}", a) != format!("{:?}", b) {
+            if util::mask_handles(&format!("{:?}", a)) != util::mask_handles(&format!("{:?}", b)) {
                 eprintln!("MACHINERY-ERROR: replay diverged between two executions");
                 std::process::exit(2);
             }
             match a {
                 Ok(s) => println!("{}", s),
                 Err(e) => println!("replay error: {}", e),
+            }
+        }
+        "script" => {
+            // debugging aid: run a script file with the SDK, dump variables and abstract state
+            let text = std::fs::read_to_string(&args[2]).expect("read script");
+            let ctx = util::sdk_context();
+            match duckscript::runner::run_script(&text, ctx, None) {
+                Ok(c) => {
+                    println!("variables: {:?}", util::sorted_vars(&c.variables));
+                    println!("state: {:#?}", util::abstract_state(&c.state));
+                }
+                Err(e) => println!("error: {}", e),
             }
         }
         _ => {
